@@ -115,7 +115,17 @@ def _caltrack_predict_outcome(chk, cw, cp):
         nan = float("nan")
     seen = {}
 
-    def model_predict(index, temps, *a, **k):
+    _mp = chk.repo.try_func("opendsm.eemeter.models.hourly_caltrack.model", "CalTRACKHourlyModelResults.predict")
+
+    def model_predict(*a, **k):
+        # by position or by the repository method's own parameter names
+        from rules.common import bind_like
+        if _mp is not None:
+            vals = bind_like(_mp, a, k)
+            ps = [p_ for p_ in _mp.params if p_ not in ("self", "cls")]
+            index, temps = vals.get(ps[0]), vals.get(ps[1])
+        else:
+            index, temps = a[0], a[1]
         seen["predicted_on"] = getattr(index, "ident", repr(index)[:40])
         seen["temperature_from"] = getattr(temps, "ident", repr(temps)[:40])
         return AbsObj({"CalTRACKHourlyModelResults"}, result=IFrame(seen["predicted_on"], ["predicted_usage"]))
